@@ -28,6 +28,8 @@ type exprEnv struct {
 	w      *World
 	pkg    *ssa.Package
 	vars   map[string]typedTerm
+	assumeDepth int // trAssume: nesting depth of universals instantiated at goal constants
+	entryVars map[string]typedTerm // parameters at entry, for old(p) inside loop invariants
 	result []typedTerm
 	args   []typedTerm // positional parameters (arg0 = receiver)
 	extra  map[string]typedTerm // extra identifiers (printed, nprinted, exitcode)
@@ -106,34 +108,53 @@ func (env *exprEnv) trGoal(x *Expr) typedTerm {
 		switch x.name {
 		case "==>":
 			if h := x.args[0]; h.op == "exists" && len(h.vars) == 1 && isInteger(env.resolveType(h.vars[0].typ)) {
-				// an existential hypothesis: its witness becomes a named constant, and the declared loop invariants are
-				// instantiated at that constant (the solver cannot name its own Skolem constant in those instances)
-				env.g.nHsk++
-				c := fmt.Sprintf("hsk!%d", env.g.nHsk)
-				env.g.declare(fmt.Sprintf("(declare-fun %s () Int)", c))
-				old, had := env.vars[h.vars[0].name]
-				env.vars[h.vars[0].name] = typedTerm{t: c, typ: tInt}
-				saved := env.instAt
-				env.instAt = append(append([]Term{}, env.hypInst...), env.goalSk...)
-				a := env.tr(h.args[0])
-				env.instAt = saved
-				if had {
-					env.vars[h.vars[0].name] = old
-				} else {
-					delete(env.vars, h.vars[0].name)
+				// an existential hypothesis (or a chain of them): each witness becomes a named constant, and the declared
+				// loop invariants are instantiated at those constants (the solver cannot name its own Skolem constant in
+				// those instances)
+				type savedVar struct {
+					name string
+					old  typedTerm
+					had  bool
 				}
-				hyps := []Term{"(inr64 " + c + ")", a.t}
-				env.witnesses = append(env.witnesses, c)
+				var sv []savedVar
+				var cs []Term
+				hyps := []Term{}
+				for h.op == "exists" && len(h.vars) == 1 && isInteger(env.resolveType(h.vars[0].typ)) {
+					env.g.nHsk++
+					c := fmt.Sprintf("hsk!%d", env.g.nHsk)
+					env.g.declare(fmt.Sprintf("(declare-fun %s () Int)", c))
+					old, had := env.vars[h.vars[0].name]
+					sv = append(sv, savedVar{h.vars[0].name, old, had})
+					env.vars[h.vars[0].name] = typedTerm{t: c, typ: tInt}
+					cs = append(cs, c)
+					hyps = append(hyps, "(inr64 "+c+")")
+					h = h.args[0]
+				}
+				saved := env.instAt
+				env.instAt = append(append(append([]Term{}, env.hypInst...), env.goalSk...), cs...)
+				a := env.tr(h)
+				env.instAt = saved
+				for k := len(sv) - 1; k >= 0; k-- {
+					if sv[k].had {
+						env.vars[sv[k].name] = sv[k].old
+					} else {
+						delete(env.vars, sv[k].name)
+					}
+				}
+				hyps = append(hyps, a.t)
+				env.witnesses = append(env.witnesses, cs...)
 				if env.e == nil {
 					b := env.trGoal(x.args[1])
 					return typedTerm{t: implies(and(hyps...), b.t), typ: tBool}
 				}
 				root := env.e.root()
 				savedExtra := root.extraInst
-				root.extraInst = append(append([]Term{}, savedExtra...), c)
+				root.extraInst = append(append([]Term{}, savedExtra...), cs...)
+				root.reinst = true
 				for _, rec := range root.invRecords {
 					hyps = append(hyps, implies(rec.reach, env.e.invExpr(rec.expr, rec.head, rec.cur, true)))
 				}
+				root.reinst = false
 				root.extraInst = savedExtra
 				// ... and so are the automatic loop summaries
 				for _, sm := range root.summaries {
@@ -144,7 +165,9 @@ func (env *exprEnv) trGoal(x *Expr) typedTerm {
 					if sm.shift == 1 {
 						lo, hi = "(+ "+sm.init+" 1)", "(+ "+sm.K+" 1)"
 					}
-					hyps = append(hyps, implies(and(sm.reach, "(<= "+lo+" "+c+")", "(< "+c+" "+hi+")"), strings.ReplaceAll(sm.cont, "@J@", c)))
+					for _, c := range cs {
+						hyps = append(hyps, implies(and(sm.reach, "(<= "+lo+" "+c+")", "(< "+c+" "+hi+")"), strings.ReplaceAll(sm.cont, "@J@", c)))
+					}
 				}
 				b := env.trGoal(x.args[1])
 				return typedTerm{t: implies(and(hyps...), b.t), typ: tBool}
@@ -160,6 +183,11 @@ func (env *exprEnv) trGoal(x *Expr) typedTerm {
 			a := env.trGoal(x.args[0])
 			b := env.trGoal(x.args[1])
 			return typedTerm{t: and(a.t, b.t), typ: tBool}
+		case "||":
+			// a positive disjunction: each side in goal mode (candidate witnesses for its existentials)
+			a := env.trGoal(x.args[0])
+			b := env.trGoal(x.args[1])
+			return typedTerm{t: or(a.t, b.t), typ: tBool}
 		case "==":
 			// b == (forall ...) is proved as two implications, so that the quantifier is skolemized in one
 			// direction and instantiated in the other (solvers do poorly on an equality with a quantified side)
@@ -171,36 +199,67 @@ func (env *exprEnv) trGoal(x *Expr) typedTerm {
 			}
 		}
 	case "forall":
-		if len(x.vars) == 1 && isInteger(env.resolveType(x.vars[0].typ)) && env.skNext < len(env.goalSk) {
-			c := env.goalSk[env.skNext]
-			env.skNext++
-			old, had := env.vars[x.vars[0].name]
-			env.vars[x.vars[0].name] = typedTerm{t: c, typ: tInt}
-			b := env.trGoal(x.args[0])
-			if had {
-				env.vars[x.vars[0].name] = old
-			} else {
-				delete(env.vars, x.vars[0].name)
+		allInt := len(x.vars) >= 1
+		for _, v := range x.vars {
+			if !isInteger(env.resolveType(v.typ)) {
+				allInt = false
 			}
-			return typedTerm{t: implies("(inr64 "+c+")", b.t), typ: tBool}
+		}
+		if allInt && env.skNext+len(x.vars) <= len(env.goalSk) {
+			type savedVar struct {
+				name string
+				old  typedTerm
+				had  bool
+			}
+			var sv []savedVar
+			var rng []Term
+			for _, v := range x.vars {
+				c := env.goalSk[env.skNext]
+				env.skNext++
+				old, had := env.vars[v.name]
+				sv = append(sv, savedVar{v.name, old, had})
+				env.vars[v.name] = typedTerm{t: c, typ: tInt}
+				rng = append(rng, "(inr64 "+c+")")
+			}
+			b := env.trGoal(x.args[0])
+			for _, v := range sv {
+				if v.had {
+					env.vars[v.name] = v.old
+				} else {
+					delete(env.vars, v.name)
+				}
+			}
+			return typedTerm{t: implies(and(rng...), b.t), typ: tBool}
 		}
 	case "exists":
 		// a positive existential over one integer: besides the quantified form, the candidate witnesses known to the
 		// translation (loop iteration indices) are offered as explicit disjuncts; each disjunct gets its own goal
 		// constants for inner universals (sharing one constant between disjuncts would be unsound), so candidates are
 		// used only while constants remain
-		if len(x.vars) == 1 && isInteger(env.resolveType(x.vars[0].typ)) && len(env.hypInst)+len(env.witnesses) > 0 {
+		if len(x.vars) == 1 && isInteger(env.resolveType(x.vars[0].typ)) && (len(env.hypInst)+len(env.witnesses) > 0 || (env.e != nil && len(env.e.root().concatLens) > 0)) {
 			disj := []Term{env.tr(x).t}
 			old, had := env.vars[x.vars[0].name]
 			var cands []Term
 			for k := len(env.witnesses) - 1; k >= 0; k-- { // the most recent witness first
 				cands = append(cands, env.witnesses[k])
 			}
-			for _, cand := range append(cands, env.hypInst...) {
-				if env.skNext >= len(env.goalSk) {
-					break
+			if env.e != nil {
+				// positions shifted by a concatenation: the goal constants in use, moved by the length of the left part
+				for _, L := range env.e.root().concatLens {
+					for k := 0; k < env.skNext && k < len(env.goalSk); k++ {
+						cands = append(cands, "(- "+env.goalSk[k]+" "+L+")", "(+ "+env.goalSk[k]+" "+L+")")
+					}
 				}
+			}
+			for n, cand := range append(cands, env.hypInst...) {
 				env.vars[x.vars[0].name] = typedTerm{t: cand, typ: tInt}
+				if env.skNext >= len(env.goalSk) {
+					// no goal constants left for inner universals: the instance keeps its quantifiers
+					if n < 12 {
+						disj = append(disj, env.tr(x.args[0]).t)
+					}
+					continue
+				}
 				disj = append(disj, env.trGoal(x.args[0]).t)
 			}
 			if had {
@@ -228,6 +287,110 @@ func (env *exprEnv) trGoal(x *Expr) typedTerm {
 		}
 	}
 	return env.tr(x)
+}
+
+// trAssume translates an assumed formula.  An existential in positive position that is not under a binder is
+// skolemized by a named constant (sound for an assumption), so that the goal's quantified hypotheses can be
+// instantiated at the witness and the witness offered as a candidate for existential goals; the solvers cannot
+// name their own Skolem constants in the explicit instances the translation emits.
+func (env *exprEnv) trAssume(x *Expr) typedTerm {
+	if env.e == nil {
+		return env.tr(x)
+	}
+	switch x.op {
+	case "binary":
+		switch x.name {
+		case "&&":
+			a := env.trAssume(x.args[0])
+			b := env.trAssume(x.args[1])
+			return typedTerm{t: and(a.t, b.t), typ: tBool}
+		case "==>":
+			// explicit instantiation only makes sense for quantifiers of positive polarity
+			saved := env.instAt
+			env.instAt = nil
+			a := env.tr(x.args[0])
+			env.instAt = saved
+			b := env.trAssume(x.args[1])
+			return typedTerm{t: implies(a.t, b.t), typ: tBool}
+		case "||":
+			a := env.trAssume(x.args[0])
+			b := env.trAssume(x.args[1])
+			return typedTerm{t: or(a.t, b.t), typ: tBool}
+		case "==":
+			for k := 0; k < 2; k++ {
+				if q := x.args[k]; q.op == "exists" {
+					imp := func(a, b *Expr) *Expr { return &Expr{op: "binary", name: "==>", args: []*Expr{a, b}} }
+					l := env.trAssume(imp(x.args[1-k], q))
+					r := env.tr(imp(q, x.args[1-k]))
+					return typedTerm{t: and(l.t, r.t), typ: tBool}
+				}
+			}
+		}
+	case "forall":
+		// besides the quantified formula and its plain instances: the instances at the goal constants with their
+		// existentials named (each instance is a closed formula, so naming its witnesses is sound)
+		if len(x.vars) == 1 && isInteger(env.resolveType(x.vars[0].typ)) && env.e != nil && env.instDepth == 0 {
+			parts := []Term{env.tr(x).t}
+			if hasExists(x.args[0]) {
+				old, had := env.vars[x.vars[0].name]
+				// the goal constant a goal of the same quantifier shape uses at this nesting depth
+				if sk := env.e.root().goalSk; env.assumeDepth < len(sk) {
+					at := sk[env.assumeDepth]
+					env.assumeDepth++
+					env.vars[x.vars[0].name] = typedTerm{t: at, typ: tInt}
+					parts = append(parts, implies("(inr64 "+at+")", env.trAssume(x.args[0]).t))
+					env.assumeDepth--
+				}
+				if had {
+					env.vars[x.vars[0].name] = old
+				} else {
+					delete(env.vars, x.vars[0].name)
+				}
+			}
+			return typedTerm{t: and(parts...), typ: tBool}
+		}
+	case "exists":
+		if len(x.vars) == 1 && isInteger(env.resolveType(x.vars[0].typ)) {
+			env.g.nHsk++
+			c := fmt.Sprintf("ask!%d", env.g.nHsk)
+			env.g.declare(fmt.Sprintf("(declare-fun %s () Int)", c))
+			old, had := env.vars[x.vars[0].name]
+			env.vars[x.vars[0].name] = typedTerm{t: c, typ: tInt}
+			saved := env.instAt
+			env.instAt = append(append([]Term{}, saved...), c)
+			b := env.trAssume(x.args[0])
+			env.instAt = saved
+			if had {
+				env.vars[x.vars[0].name] = old
+			} else {
+				delete(env.vars, x.vars[0].name)
+			}
+			if root := env.e.root(); !root.reinst {
+				root.assumeWit = append(root.assumeWit, c)
+				if root.witGroup == nil {
+					root.witGroup = map[Term]string{}
+				}
+				root.witGroup[c] = root.curGroup
+			}
+			return typedTerm{t: and("(inr64 "+c+")", b.t), typ: tBool}
+		}
+	}
+	return env.tr(x)
+}
+
+func hasExists(x *Expr) bool {
+	if x == nil {
+		return false
+	}
+	if x.op == "exists" {
+		return true
+	}
+	for _, a := range x.args {
+		if hasExists(a) {
+			return true
+		}
+	}
+	return false
 }
 
 func (env *exprEnv) tr(x *Expr) typedTerm {
@@ -629,6 +792,14 @@ func (env *exprEnv) call(x *Expr) typedTerm {
 			}
 			return env.fail("len of %s", a.typ)
 		case "old":
+			// entry value of a parameter that the body reassigns (only differs inside loop invariants)
+			if env.entryVars != nil {
+				saved := env.vars
+				env.vars = env.entryVars
+				r := env.tr(argEs[0])
+				env.vars = saved
+				return r
+			}
 			return env.tr(argEs[0])
 		case "ecosystem":
 			// the interface value the CLI passes for an ecosystem package: &pkg.Ecosystem{} boxed
